@@ -7,7 +7,10 @@ import (
 	"verif/vlib"
 )
 
-type H struct{ res *vlib.Result }
+type H struct {
+	res  *vlib.Result
+	mine func(i int) bool // shard filter
+}
 
 const (
 	wantAccept = iota
